@@ -21,3 +21,9 @@ def run(check):
                    ['NoFault', 'NoForeignSignal', 'RunLive', 'CascadeShape', 'MutualExclusion', 'OwnerConsistent',
                     'ShareBounded', 'NoStuck'], num=60 if check.tier == 'quick' else 3000, depth=120)
     runs = scopedom.run(check, OBS, LABELS[check.tier], conform=True)
+    # the binding itself is tested: corrupted copies of recorded traces must be rejected by the operational spec
+    import selftest
+    st = selftest.run(check, 300 if check.tier == 'quick' else 3000)
+    if st['rejected_by_USimT'] is not None and st['rejected_by_USimT'] != st['corrupted_traces']:
+        check.notes.append('binding self-test: %d of %d corrupted traces were accepted by USimT (%s)'
+                           % (st['corrupted_traces'] - st['rejected_by_USimT'], st['corrupted_traces'], st['accepted_kinds']))
